@@ -1,6 +1,7 @@
 package main
 
 import (
+	"go/constant"
 	"fmt"
 	"go/ast"
 	"go/build/constraint"
@@ -194,6 +195,11 @@ func ruleC20(w *World) {
 	// R4: no dependence on the word size
 	w.floor("C20.R4", 1)
 	w.ruleWordSize("C20.R4", def)
+	// R6: the pure-Go Keccak-f (the sibling of the assembly permutation, selected by purego / non-amd64 builds) has the
+	// structure FIPS 202 prescribes: `|` occurs only as the two halves of a rotation of one value by complementary constant
+	// shifts, the rotation amounts are — per round — five times 1 (θ) plus the 24 ρ offsets, the χ step uses `&^` only, and
+	// the ι table holds the 24 round constants of the standard
+	w.ruleKeccakStructure("C20.R6", repo)
 	// R5: code selected by build constraints reads only the bytes it is given: no slice in a build-tagged file of hash/
 	// and random/ is re-sliced past its length (what lies beyond is stale, history-dependent memory that the sibling
 	// implementation never looks at) — the slice-extension rule of C09.R2(f), per configuration
@@ -376,7 +382,7 @@ func (w *World) ruleXorLanes(rule, repo string) {
 			continue
 		}
 		wd.out = w.out
-		fn := wd.fn(hashPath, "xorIn")
+		fn := wd.fn(hashPath, wd.spongeRole("xorIn"))
 		if fn == nil {
 			w.undecided(rule, "xorIn@"+cfg, token.NoPos, "unresolved anchor: xorIn")
 			continue
@@ -570,7 +576,16 @@ func (w *World) ruleWordSize(rule string, def *World) {
 				def.out = w.out
 				// a sample drawn below a bound that is itself an int: UintN(uint64(k)) < k (C15.R1: returned only under
 				// sample <= k-1), and k fits the platform's int by its type
-				if c, isCall := cv.X.(*ssa.Call); isCall && !(known && lo > -limit && hi < limit) {
+				src := cv.X
+				if sp, isP := src.(*ssa.Parameter); isP && sp.Parent() != nil && sp.Parent().Parent() != nil {
+					// parameter of a function literal called from one place: the value passed there
+					if cs := def.callersOfCached(sp.Parent()); len(cs) == 1 {
+						if idx := paramIndex(sp.Parent(), sp); idx >= 0 && idx < len(cs[0].Common().Args) {
+							src = cs[0].Common().Args[idx]
+						}
+					}
+				}
+				if c, isCall := src.(*ssa.Call); isCall && !(known && lo > -limit && hi < limit) {
 					if callee := c.Call.StaticCallee(); callee != nil && callee.Name() == "UintN" && len(c.Call.Args) == 2 {
 						if ac, isConv := c.Call.Args[1].(*ssa.Convert); isConv {
 							if ab, isB := ac.X.Type().Underlying().(*types.Basic); isB && (ab.Kind() == types.Int || ab.Kind() == types.Uint) && to.Kind() == ab.Kind() {
@@ -626,4 +641,137 @@ func (w *World) ruleTaggedSliceExtensions(rule, repo string) {
 		sort.Strings(fl)
 		w.check(len(fns) > 0, rule, "tagged-files@"+cfg, token.NoPos, fmt.Sprintf("%d functions in build-constrained files %v examined, %d slice bounds derived from the slice's own length", len(fns), fl, n), "no build-constrained file found in hash/ or random/ (anchor moved?)")
 	}
+}
+
+
+var keccakRho = []int64{1, 3, 6, 10, 15, 21, 28, 36, 45, 55, 2, 14, 27, 41, 56, 8, 25, 43, 62, 18, 39, 61, 20, 44}
+var keccakRC = []uint64{
+	0x0000000000000001, 0x0000000000008082, 0x800000000000808A, 0x8000000080008000, 0x000000000000808B, 0x0000000080000001,
+	0x8000000080008081, 0x8000000000008009, 0x000000000000008A, 0x0000000000000088, 0x0000000080008009, 0x000000008000000A,
+	0x000000008000808B, 0x800000000000008B, 0x8000000000008089, 0x8000000000008003, 0x8000000000008002, 0x8000000000000080,
+	0x000000000000800A, 0x800000008000000A, 0x8000000080008081, 0x8000000000008080, 0x0000000080000001, 0x8000000080008008,
+}
+
+func (w *World) ruleKeccakStructure(rule, repo string) {
+	wd, err := load(LoadCfg{Name: "purego", Dir: repo, Env: mustCfg("purego", repo).Env, Flags: mustCfg("purego", repo).Flags, Pats: []string{"./hash"}})
+	if err != nil {
+		w.undecided(rule, "keccakF1600@purego", token.NoPos, err.Error())
+		return
+	}
+	wd.out = w.out
+	fn := wd.fn(hashPath, "keccakF1600")
+	if fn == nil || fn.Blocks == nil {
+		w.undecided(rule, "keccakF1600@purego", token.NoPos, "unresolved anchor: pure-Go keccakF1600")
+		return
+	}
+	file := filepath.Base(wd.Fset.Position(fn.Pos()).Filename)
+	rot := map[int64]int{}
+	nOr, badOr := 0, ""
+	nAndNot, nAnd := 0, 0
+	instrsFlat(fn, func(ins ssa.Instruction) {
+		bo, ok := ins.(*ssa.BinOp)
+		if !ok {
+			return
+		}
+		if b, isB := bo.Type().Underlying().(*types.Basic); !isB || b.Kind() != types.Uint64 {
+			return
+		}
+		switch bo.Op {
+		case token.AND_NOT:
+			nAndNot++
+		case token.AND:
+			nAnd++
+		case token.OR:
+			nOr++
+			l, okl := bo.X.(*ssa.BinOp)
+			r, okr := bo.Y.(*ssa.BinOp)
+			if okl && okr && l.Op == token.SHR && r.Op == token.SHL {
+				l, r = r, l
+			}
+			good := false
+			if okl && okr && l.Op == token.SHL && r.Op == token.SHR && l.X == r.X {
+				kl, ok1 := constOf(l.Y)
+				kr, ok2 := constOf(r.Y)
+				if ok1 && ok2 {
+					a, _ := constInt64(kl.Value)
+					b, _ := constInt64(kr.Value)
+					if a > 0 && b > 0 && a+b == 64 {
+						good = true
+						rot[a]++
+					}
+				}
+			}
+			if !good && badOr == "" {
+				badOr = fmt.Sprintf("`%s` at %s is not a rotation (x<<k | x>>(64-k) of one value): an operand of `|` is a compound expression or the shifts are not complementary", shortCond(render(bo)), wd.pos(bo.Pos()))
+			}
+		}
+	})
+	w.check(badOr == "" && nOr > 0, rule, "keccakF1600@purego/"+file+"/rotations", token.NoPos, fmt.Sprintf("all %d uses of | are rotations", nOr), file+": "+badOr+" — the pure-Go permutation differs from Keccak-f (and from the assembly sibling)")
+	// rotation amounts: k rounds unrolled ⇒ k × (5 × rotl 1 + ρ offsets)
+	want := map[int64]int{}
+	for _, o := range keccakRho {
+		want[o]++
+	}
+	want[1] += 5
+	total := 0
+	for _, c := range rot {
+		total += c
+	}
+	k := total / 29
+	okRot := k >= 1 && total == 29*k
+	for a, c := range want {
+		if rot[a] != c*k {
+			okRot = false
+		}
+	}
+	for a := range rot {
+		if want[a] == 0 {
+			okRot = false
+		}
+	}
+	w.check(okRot, rule, "keccakF1600@purego/"+file+"/rho-offsets", token.NoPos, fmt.Sprintf("rotation amounts are %d × (θ: 5×1, ρ: the 24 offsets of FIPS 202)", k), fmt.Sprintf("%s: the multiset of rotation amounts %v is not a multiple of (5×1 + the 24 ρ offsets)", file, rot))
+	w.check(nAndNot > 0 && nAndNot%25 == 0 && nAnd == 0, rule, "keccakF1600@purego/"+file+"/chi", token.NoPos, fmt.Sprintf("χ: %d and-not operations (25 per round), no plain and", nAndNot), fmt.Sprintf("%s: χ step has %d `&^` and %d `&` operations (expected 25 `&^` per unrolled round and none of the other)", file, nAndNot, nAnd))
+	// round constants: the table is found by role — the package-level array of 64-bit words that keccakF1600 indexes
+	rcNames := map[string]bool{}
+	instrsFlat(fn, func(ins ssa.Instruction) {
+		if ia, ok := ins.(*ssa.IndexAddr); ok {
+			if g, ok := ia.X.(*ssa.Global); ok {
+				if arr, ok := deref(g.Type()).Underlying().(*types.Array); ok {
+					if b, ok := arr.Elem().Underlying().(*types.Basic); ok && b.Kind() == types.Uint64 {
+						rcNames[g.Name()] = true
+					}
+				}
+			}
+		}
+	})
+	var got []uint64
+	if p := wd.ByPath[hashPath]; p != nil {
+		for _, f := range p.Syntax {
+			ast.Inspect(f, func(n ast.Node) bool {
+				vs, ok := n.(*ast.ValueSpec)
+				if !ok || len(vs.Names) != 1 || !rcNames[vs.Names[0].Name] || len(vs.Values) != 1 {
+					return true
+				}
+				cl, ok := vs.Values[0].(*ast.CompositeLit)
+				if !ok {
+					return true
+				}
+				for _, e := range cl.Elts {
+					if tv, ok := p.TypesInfo.Types[e]; ok && tv.Value != nil {
+						if u, ok := constant.Uint64Val(tv.Value); ok {
+							got = append(got, u)
+						}
+					}
+				}
+				return false
+			})
+		}
+	}
+	okRC := len(got) == len(keccakRC)
+	for i := range got {
+		if i < len(keccakRC) && got[i] != keccakRC[i] {
+			okRC = false
+		}
+	}
+	w.check(okRC, rule, "keccakF1600@purego/"+file+"/round-constants", token.NoPos, "ι table = the 24 round constants of FIPS 202", fmt.Sprintf("%s: the round-constant table (%d entries) differs from FIPS 202", file, len(got)))
 }
